@@ -105,13 +105,7 @@ pub fn char_downcase(vm: &mut Vm) -> Result<VCell, Error> {
 pub fn char_foldcase(vm: &mut Vm) -> Result<VCell, Error> {
     pop_argc(vm, 1, Some(1), "char-foldcase")?;
     let c = pop_char(vm)?;
-    if c.is_ascii() {
-        Ok(c.to_ascii_lowercase().into())
-    } else if c.to_lowercase().count() == 1 {
-        Ok(c.to_lowercase().next().unwrap().into())
-    } else {
-        Ok(c.into())
-    }
+    Ok(fold_char(&c).into())
 }
 
 pub fn digit_value(vm: &mut Vm) -> Result<VCell, Error> {
@@ -146,16 +140,54 @@ pub fn char_gt_eq(vm: &mut Vm) -> Result<VCell, Error> {
 
 /// Fold Char
 ///
-/// The character used by the case-insensitive comparisons: the same simple case
-/// folding that char-foldcase applies.
-fn fold_char(c: &char) -> char {
-    if c.is_ascii() {
-        c.to_ascii_lowercase()
-    } else if c.to_lowercase().count() == 1 {
-        c.to_lowercase().next().unwrap()
-    } else {
-        *c
+/// Unicode simple case folding, the mapping of char-foldcase and of the case-insensitive
+/// character comparisons. Characters that differ only in case fold to one character:
+/// folding goes through the upper case form, which the lower case letters σ and ς, s and ſ,
+/// μ and µ share. Two exceptions of the Unicode tables: ı keeps itself (its upper case
+/// form I belongs to i), and Cherokee letters fold to their upper case form.
+pub fn fold_char(c: &char) -> char {
+    if *c == '\u{131}' {
+        return *c;
     }
+    let mut upper = c.to_uppercase();
+    let upper = match (upper.next(), upper.next()) {
+        (Some(u), None) => u,
+        _ => *c,
+    };
+    if ('\u{13A0}'..='\u{13F5}').contains(&upper) {
+        return upper;
+    }
+    let mut lower = upper.to_lowercase();
+    match (lower.next(), lower.next()) {
+        (Some(l), None) => l,
+        _ => upper,
+    }
+}
+
+/// Fold Str
+///
+/// Unicode full case folding of a string (string-foldcase, and what the case-insensitive
+/// string comparisons compare): like fold_char, but a character may fold to several
+/// (ß to ss). A second pass folds what the first produced (ẞ to ß to ss).
+pub fn fold_str(s: &str) -> String {
+    fn pass(s: &str) -> String {
+        let mut out = String::with_capacity(s.len());
+        for c in s.chars() {
+            if c == '\u{131}' {
+                out.push(c);
+                continue;
+            }
+            for u in c.to_uppercase() {
+                if ('\u{13A0}'..='\u{13F5}').contains(&u) {
+                    out.push(u);
+                } else {
+                    out.extend(u.to_lowercase());
+                }
+            }
+        }
+        out
+    }
+    pass(&pass(s))
 }
 
 pub fn char_ci_eq(vm: &mut Vm) -> Result<VCell, Error> {
